@@ -234,4 +234,20 @@ class C06(Spec):
         return genops.gen_adaptive(rng, tier)
 
 
-PROPS = {"C06": C06(), "C07": C07(), "C10": C10(), "C08": C08(), "C09": C09(), "C11": C11(), "C02": C02(), "C03": C03(), "C13": C13(), "C16": C16(), "C01": C01(), "C04": C04(), "C05": C05(), "C12": C12()}
+class C14(Spec):
+    lean_modules = ["Varint.Props.C14"]
+    diff_is_violation = True
+    rule = ("bounded tagged reader, both dictionary decoders, both Elias array decoders, the bitmap deserialiser and the "
+            "RLE run counter on: all byte strings of length <= 1 and a grid (thorough: all) of length 2; every truncation of "
+            "valid encodings built by independent Python encoders; bit flips, hostile size fields (2^20+1, 2^32-1, 2^61, "
+            "2^64-1) spliced into valid streams; random strings up to 4 KiB. The input lives in a heap block of exactly the "
+            "declared size (ASan) and in front of a PROT_NONE page (all configurations); Elias: bits beyond srcBits flipped; "
+            "outputs of exactly the stated capacity plus guard elements; malloc interposed (request sizes compared with the "
+            "model, > 2 GiB refused and reported); per-operation alarm for termination")
+    assumptions = ["declared sizes are honest: the generator never declares more bytes/bits than it hands over"]
+
+    def gen(self, rng, tier):
+        return genops.gen_bounded(rng, tier)
+
+
+PROPS = {"C14": C14(), "C06": C06(), "C07": C07(), "C10": C10(), "C08": C08(), "C09": C09(), "C11": C11(), "C02": C02(), "C03": C03(), "C13": C13(), "C16": C16(), "C01": C01(), "C04": C04(), "C05": C05(), "C12": C12()}
